@@ -22,7 +22,7 @@ VI = ("v", ("ref", (), "sel", (("b", 0),)))   # variable list index from sel[0]
 
 CARRIERS = [
   ("T4", T4, (), [("w", ()), ("s02", (("s", 0, 2),)), ("s24", (("s", 2, 4),)), ("s13", (("s", 1, 3),)),
-                  ("b0", (("b", 0),)), ("b3", (("b", 3),)), ("vb", (VB,))]),
+                  ("b0", (("b", 0),)), ("b3", (("b", 3),)), ("vb", (VB,)), ("s04", (("s", 0, 4),)), ("s12", (("s", 1, 2),))]),
   ("Sab", Sab, (), [("w", ()), ("a", (("f", "a"),)), ("b", (("f", "b"),)), ("a0", (("f", "a"), ("s", 0, 1)))]),
   ("Npc", Npc, (), [("w", ()), ("p", (("f", "p"),)), ("pa", (("f", "p"), ("f", "a"))), ("c", (("f", "c"),))]),
   ("L2", B(2), (2,), [("e0", (("i", 0),)), ("e1", (("i", 1),)), ("ev", (VI,))]),
@@ -83,6 +83,21 @@ def fit(e, we, w):
   return ("call", "trunc", e, ("n", w))
 
 
+def mk_value(t, src, wsrc):
+  """Expression of type t built from (slices of) src: Bits leaf <- low bits of src; struct <- constructor."""
+  if t[0] == "B": return fit(src, wsrc, t[1])
+  if t[0] == "S": return ("st", t[1], *[mk_value(ft, src, wsrc) for _, ft in t[2]])
+  if t[0] == "L": return ("lst", *[mk_value(t[1], src, wsrc) for _ in range(t[2])])
+  raise KeyError(t)
+
+
+def flat_read(r, t):
+  """Bits expression reading every leaf of the (possibly struct-typed) ref r."""
+  if t[0] == "B": return r, t[1]
+  parts = [("ref", r[1], r[2], r[3] + la) for la, _ in leaves(t)]
+  return ("call", "concat", *parts), ir.width(t)
+
+
 def comp(cls, sigs, blocks=(), connects=(), children=(), constraints=()):
   return dict(cls=cls, sigs=list(sigs), blocks=list(blocks), connects=list(connects),
               children=list(children), constraints=list(constraints))
@@ -102,10 +117,10 @@ def f_chain():
 
 
 def _chain(clabel, t, dims, wacc, racc, place):
-  ww, _ = shape_width(t, dims, wacc)
-  rw, _ = shape_width(t, dims, racc)
+  ww, wt = shape_width(t, dims, wacc)
+  rw, rt = shape_width(t, dims, racc)
   sigs = [("in_", "in", B(4), ()), ("sel", "in", B(2), ()), ("X", "wire", t, dims),
-          ("Y", "wire", B(rw), ()), ("out", "out", B(rw), ())]
+          ("Y", "wire", rt, ()), ("out", "out", B(rw), ())]
   top = comp("Chain", sigs)
   X = ref("X", *wacc)
   wvar = any(a[0] in ("v", "vb") for a in wacc)
@@ -114,19 +129,26 @@ def _chain(clabel, t, dims, wacc, racc, place):
   if wvar:
     # one block drives the whole carrier: defaults first, then the variable target
     stm = [("=", r, fit(("un", "~", ref("in_")), 4, w)) for r, w in cover_refs(top, (), "X", t, dims, allbits)]
-    stm.append(("=", X, fit(src, 4, ww)))
+    stm.append(("=", X, mk_value(wt, src, 4)))
     blkA = ("blkA", "comb", stm)
     blkF = None
   else:
-    blkA = ("blkA", "comb", [("=", X, fit(src, 4, ww))])
+    blkA = ("blkA", "comb", [("=", X, mk_value(wt, src, 4))])
     rest = allbits - ir.ref_bits(top, (), X)
     stm = [("=", r, fit(("un", "~", ref("in_")), 4, w)) for r, w in cover_refs(top, (), "X", t, dims, rest)]
     blkF = ("blkF", "comb", stm) if stm else None
   rd = ref("X", *racc)
-  blkB = ("blkB", "comb", [("=", ref("Y"), ("bin", "+", rd, c(rw, 1)))])
-  top["connects"].append((ref("out"), ref("Y")))
+  if rt[0] == "B":
+    blkB = ("blkB", "comb", [("=", ref("Y"), ("bin", "+", rd, c(rw, 1)))])
+    blkO = None
+    top["connects"].append((ref("out"), ref("Y")))
+  else:
+    # whole-struct read: copy it, then read the copy leaf by leaf in another block
+    blkB = ("blkB", "comb", [("=", ref("Y"), rd)])
+    e, w = flat_read(ref("Y"), rt)
+    blkO = ("blkO", "comb", [("=", ref("out"), ("bin", "+", e, c(rw, 1)))])
   if place == "flat":
-    top["blocks"] = [b for b in (blkB, blkA, blkF) if b]
+    top["blocks"] = [b for b in (blkO, blkB, blkA, blkF) if b]
     return top
   if place == "wchild":
     # the writer lives in a child that owns the carrier as an out port; the parent connects it to X
@@ -136,15 +158,15 @@ def _chain(clabel, t, dims, wacc, racc, place):
     top["children"] = [("w", ch)]
     top["connects"] += [(ref("in_", path=("w",)), ref("in_")), (ref("sel", path=("w",)), ref("sel")),
                         (ref("X"), ref("X", path=("w",)))]
-    top["blocks"] = [blkB]
+    top["blocks"] = [b for b in (blkO, blkB) if b]
     return top
   if place == "rchild":
     if dims: return None
-    ch = comp("R", [("X", "in", t, ()), ("sel", "in", B(2), ()), ("Y", "out", B(rw), ())], blocks=[blkB])
+    ch = comp("R", [("X", "in", t, ()), ("sel", "in", B(2), ()), ("Y", "out", rt, ())], blocks=[blkB])
     top["children"] = [("r", ch)]
     top["connects"] += [(ref("X", path=("r",)), ref("X")), (ref("sel", path=("r",)), ref("sel")),
                         (ref("Y"), ref("Y", path=("r",)))]
-    top["blocks"] = [b for b in (blkA, blkF) if b]
+    top["blocks"] = [b for b in (blkO, blkA, blkF) if b]
     return top
 
 
@@ -334,7 +356,42 @@ def f_hier():
     ("up_c", "comb", [("=", ref("i", path=("c",)), ref("in_"))])])
 
 
-FAMILIES = {"chain": f_chain, "reg": f_reg, "diamond": f_diamond, "net": f_net, "hier": f_hier}
+# ----------------------------------------------------------------- F-fan
+
+FAN = [
+  ("T4", T4, [[()], [(("s", 0, 2),), (("s", 2, 4),)], [(("b", 0),), (("s", 1, 3),), (("b", 3),)], [(("s", 1, 2),), (("b", 0),), (("s", 2, 4),)]],
+   [(), (("s", 0, 2),), (("s", 2, 4),), (("s", 1, 3),), (("b", 0),), (("b", 3),), (("s", 0, 4),), (("s", 1, 2),), (("s", 0, 3),)]),
+  ("Sab", Sab, [[()], [(("f", "a"),), (("f", "b"),)], [(("f", "a"), ("s", 0, 1)), (("f", "a"), ("s", 1, 2)), (("f", "b"),)]],
+   [(), (("f", "a"),), (("f", "b"),), (("f", "a"), ("s", 0, 1))]),
+  ("Npc", Npc, [[()], [(("f", "p"),), (("f", "c"),)], [(("f", "p"), ("f", "a")), (("f", "p"), ("f", "b")), (("f", "c"),)]],
+   [(), (("f", "p"),), (("f", "p"), ("f", "a")), (("f", "c"),)]),
+  ("SLal", SLal, [[()], [(("f", "a"),), (("f", "l"), ("i", 0)), (("f", "l"), ("i", 1))]],
+   [(), (("f", "l"), ("i", 0)), (("f", "l"), ("i", 1)), (("f", "a"),)]),
+]
+
+
+def f_fan():
+  """One carrier X written part by part (one block per part of a partition) and read by two
+  independent reader blocks of any two shapes, each driving its own output."""
+  for label, t, partitions, reads in FAN:
+    for pi, parts in enumerate(partitions):
+      for (i, r1), (j, r2) in itertools.combinations_with_replacement(list(enumerate(reads)), 2):
+        sigs = [("in_", "in", B(4), ()), ("X", "wire", t, ())]
+        blocks = []
+        for k, racc in enumerate((r1, r2)):
+          rw, rt = shape_width(t, (), racc)
+          sigs.append((f"o{k}", "out", rt, ()))
+          rd = ref("X", *racc)
+          val = ("bin", "+", rd, c(rw, (k + 1) % (1 << rw) or 1)) if rt[0] == "B" else rd
+          blocks.append((f"rd{k}", "comb", [("=", ref(f"o{k}"), val)]))
+        for k, wacc in enumerate(parts):
+          ww, wt = shape_width(t, (), wacc)
+          src = ("bin", "^", ref("in_"), c(4, 3 * k + 5))
+          blocks.append((f"wr{k}", "comb", [("=", ref("X", *wacc), mk_value(wt, src, 4))]))
+        yield f"fan:{label}:p{pi}:r{i}r{j}", comp("Fan", sigs, blocks=blocks)
+
+
+FAMILIES = {"fan": f_fan, "chain": f_chain, "reg": f_reg, "diamond": f_diamond, "net": f_net, "hier": f_hier}
 
 
 def all_designs(families=None):
